@@ -211,6 +211,14 @@ def _yielding_pending_table(sched, m):
         def get(self, k, d=None):
             self._y('get')
             return dict.get(self, k, d)
+
+        def pop(self, k, *d):
+            self._y('pop')
+            return dict.pop(self, k, *d)
+
+        def setdefault(self, k, d=None):
+            self._y('setdefault')
+            return dict.setdefault(self, k, d)
     if hasattr(m, '_disconnect_lock'):
         m._disconnect_lock = lock
     m.pending_disconnect = Table(m.pending_disconnect)
